@@ -16,6 +16,7 @@ import TonVerif.Drv.Sig
 import TonVerif.Drv.Heap
 import TonVerif.Drv.Address
 import TonVerif.Drv.VmStack
+import TonVerif.Drv.Cost
 
 open TonVerif TonVerif.Drv
 
@@ -32,6 +33,7 @@ def handlers : List (String → List String → Option String) := [
   Heap.handle?,
   Address.handle?,
   VmStack.handle?
+  Cost.handle?
 ]
 
 def handle (op : String) (args : List String) : String :=
